@@ -59,7 +59,10 @@ func genPair(seed uint64, p profile) (v, truth any, feats map[string]int) {
 	return v, truth, g1.feats
 }
 
-var debug = os.Getenv("C12_DEBUG") != ""
+var (
+	debug  = os.Getenv("C12_DEBUG") != ""
+	stress = os.Getenv("C12_STRESS") != ""
+)
 
 func TestCheck(t *testing.T) {
 	cfg := mon.Load("C12")
@@ -93,6 +96,11 @@ func TestCheck(t *testing.T) {
 
 	rep.Cases(n, func(idx int64, rng *mon.Rand) {
 		prof := newProfile(rng.Sub("profile"))
+		if stress {
+			// debugging aid: every case may combine all known-defect shapes with
+			// loudly refused ones (maximises order-dependent decoder outcomes)
+			prof.allowKnown, prof.allowPtrIface = true, true
+		}
 		seed := rng.Uint64()
 		v, truth, feats := genPair(seed, prof)
 
@@ -221,8 +229,8 @@ func blackBoxCase(rep *mon.Reporter, rng *mon.Rand, prof profile) {
 		if res.violation() {
 			cl := classify(r.want, res)
 			w := mkWitness("checkpoint (black box, "+r.slot+")", r.want, res, &cl)
-			rep.Violation("C12/different/"+cl.class, "after interrupt+resume through a byte-only store "+r.why+"\n  "+desc, w)
-			rep.Count("violation_class/bb:"+"C12/different/"+cl.class, 1)
+			rep.Violation(cl.signature, "after interrupt+resume through a byte-only store "+r.why+"\n  "+desc, w)
+			rep.Count("violation_class/bb:"+cl.signature, 1)
 			return
 		}
 		slot := "state"
@@ -236,7 +244,8 @@ func blackBoxCase(rep *mon.Reporter, rng *mon.Rand, prof profile) {
 	case bbResumePanic, bbFirstPanic:
 		for _, x := range values {
 			wrapped := &bbState{V: x.v}
-			res := roundtrip(wrapped, wrapped)
+			ws, _ := mkSub(reflect.ValueOf(wrapped), "top", "$")
+			res := ws.test()
 			if res.violation() {
 				cl := classify(wrapped, res)
 				w := mkWitness("checkpoint (black box, "+x.name+")", x.v, res, &cl)
